@@ -193,6 +193,23 @@ fn scenario_d() {
     }
 }
 
+/// E: ten threads synthesize on one shared engine (GV streams): more concurrent callers than any
+/// small fixed-size pool inside the library would expect
+fn scenario_e() {
+    let e = Arc::new(engine(0.0));
+    let reference = e.synthesize(&LABELS).unwrap();
+    let hs: Vec<_> = (0..10)
+        .map(|_| {
+            let e = e.clone();
+            std::thread::spawn(move || e.synthesize(&LABELS).unwrap())
+        })
+        .collect();
+    for h in hs {
+        let w = h.join().unwrap();
+        assert_eq!(bits(&w), bits(&reference), "C03: ten concurrent synthesize calls on a shared engine: one differs from the sequential result");
+    }
+}
+
 fn main() {
     let which = std::env::args().nth(1).unwrap_or_else(|| "A".into());
     match which.as_str() {
@@ -200,6 +217,7 @@ fn main() {
         "B" => scenario_b(),
         "C" => scenario_c(),
         "D" => scenario_d(),
+        "E" => scenario_e(),
         _ => panic!("unknown scenario"),
     }
     println!("scenario {} ok", which);
